@@ -164,8 +164,8 @@ def build_ann(s, env, spelling=None, preds=None):
     if k == "obj":
         return object
     if k == "union":
-        members = [build_ann(x, env, None, preds) for x in s[1]]
         how = sp.get("union", "typing")
+        members = [build_ann(x, env, {"union": "ovld"} if how == "ovld" else None, preds) for x in s[1]]
         if how == "tuple":
             return tuple(members)
         if how == "pipe":
@@ -177,10 +177,13 @@ def build_ann(s, env, spelling=None, preds=None):
             except TypeError:
                 return typing.Union[tuple(members)]
         if how == "ovld":
-            return T.Union[tuple(members)]
+            return T.Union[tuple(T.normalize_type(m, None) for m in members)]
         return typing.Union[tuple(members)]
     if k == "inter":
-        return T.Intersection[tuple(build_ann(x, env, None, preds) for x in s[1])]
+        # Intersection[...] does not normalise its arguments: nested unions are written with ovld's own Union
+        return T.Intersection[
+            tuple(T.normalize_type(build_ann(x, env, {"union": "ovld"}, preds), None) for x in s[1])
+        ]
     if k == "exactly":
         return T.Exactly[env[s[1]]]
     if k == "strict":
@@ -190,7 +193,16 @@ def build_ann(s, env, spelling=None, preds=None):
     if k == "lit":
         return typing.Literal[tuple(lit_value(x) for x in s[1])]
     if k == "dep":
-        return Dependent[build_ann(s[1], env, None, preds), make_pred(s[2], preds)]
+        # Dependent[...] makes a new, unequal type every time it is written; a user who means "the same
+        # type" binds it to a name.  With env["__depcache__"] the same spec yields the same object.
+        cache = env.get("__depcache__") if preds is None else None
+        key = repr(s)
+        if cache is not None and key in cache:
+            return cache[key]
+        d = Dependent[build_ann(s[1], env, None, preds), make_pred(s[2], preds)]
+        if cache is not None:
+            cache[key] = d
+        return d
     if k == "tup":
         items = tuple(build_ann(x, env, None, preds) for x in s[1])
         return tuple[items] if items else tuple[()]
